@@ -686,7 +686,8 @@ theorem abs_addCached (s : Store) (r : RR) (now : Nat) (x : RR) :
     abs (s.addCached r now) x =
       if rrEq x r = true then
         (if abs s r = some .auth then some .auth
-         else some (.cached (now + 1000 * (if r.flush = true then 1 else r.ttl))))
+         else some (.cached (now + 1000 * (if r.flush = true then 1 else r.ttl))
+                (now + 1000 * refreshOffsetSecs (if r.flush = true then 1 else r.ttl))))
       else abs s x := by
   unfold Store.addCached
   simp only
